@@ -48,7 +48,9 @@ type Form struct {
 	Classes []Class  `json:",omitempty"`
 }
 
-// Op is one use. Tag: T text, R render script, I RenderScriptItems, C RenderCSSItems, E element, O once.
+// Op is one use. Tag: T text, R render script, I RenderScriptItems, C RenderCSSItems, E element, O once,
+// D derive a further Go context from the one the use goes through (Text: nonce | children | clear | value | cancel;
+// Nonce for kind nonce). Every derived context belongs to the same rendering context.
 type Op struct {
 	Tag     string
 	Text    string   `json:",omitempty"`
@@ -56,6 +58,10 @@ type Op struct {
 	Scripts []Script `json:",omitempty"`
 	Forms   []Form   `json:",omitempty"`
 	H       int      `json:",omitempty"`
+	Nonce   string   `json:",omitempty"`
+	// Via (top-level uses only): which Go context of the rendering context the use goes through: 0 the original
+	// one, i > 0 the one the i-th D use of this rendering context produced (0 when there is no such one).
+	Via int `json:",omitempty"`
 	Fixed   bool     `json:",omitempty"` // handle created with templ.WithComponent(body) rather than given a block
 	Body    []Op     `json:",omitempty"`
 	// probe templates only: Tag "X" is an element whose attributes sit under attribute-level if/else blocks
@@ -207,6 +213,14 @@ func (h Hist) toks() []string {
 		}
 	}
 	for _, co := range h.Ops {
+		if co.Op.Tag == "D" {
+			// to the model only WithNonce is an event (it changes the nonce of the one registry); the other
+			// derivations change nothing
+			if co.Op.Text == "nonce" {
+				t = append(t, strconv.Itoa(co.Ctx), "W", co.Op.Nonce)
+			}
+			continue
+		}
 		t = append(t, strconv.Itoa(co.Ctx))
 		co.Op.toks(&t)
 	}
